@@ -74,7 +74,7 @@ def convHandle (w : World) (op : String) (args : List Sexp) : Option Sexp :=
   | "C03SCOPE", [cfg, ty, o] => do
       -- hypotheses of the C03 theorems on this case, and the model's own primitive-only verdict
       let cfg ← cfgOfSexp cfg; let ty ← tyOfSexp ty; let o ← objOfSexp o
-      some (.list [ofBool (wellTyped w ty o), ofBool (ty.supU cfg.gen && w.supUB cfg.gen),
+      some (.list [ofBool (wellTyped w ty o), ofBool (ty.supU cfg.gen && w.supUB cfg.gen && w.tdAcyclicB),
                    ofBool ((convUnstructure w cfg ty o).prim (!cfg.gen))])
   | "CONF", [ty, o] => do
       let ty ← tyOfSexp ty; let o ← objOfSexp o
